@@ -1,6 +1,6 @@
 (** C09 — mask recovery returns the commitment's exact mask, position by position. *)
 From Coq Require Import List Arith NArith Bool.
-From BP Require Import Base.Field Model.Verifier Model.VerifyTop Model.Prover Proofs.MaskP Proofs.VerifyTopP Proofs.CompleteP Proofs.MaskFullP.
+From BP Require Import Base.Field Model.Verifier Model.VerifyTop Model.Prover Proofs.MaskP Proofs.VerifyTopP Proofs.CompleteP Proofs.MaskFullP Model.Nonce Proofs.SeedP.
 Import ListNotations.
 
 (** For a non-aggregated proof whose responses d1_k are the honest ones
@@ -52,3 +52,24 @@ Theorem C09_prover_mask_recovered : forall (K : Fld), FldOk K -> forall (M : Mod
                (mkChals K (pc_y ch) (pc_z ch) (pc_es ch) (pc_e ch)) = r.
 Proof. exact prover_mask_recovered. Qed.
 Print Assumptions C09_prover_mask_recovered.
+
+(** ... and with the nonce sourcing of Model/Nonce.v: the prover takes alpha, dL, dR, d, eta from the
+    seed oracle (r, s from its transcript RNG, any outputs), the verifier queries the SAME seed oracle:
+    recovery returns the blinding vector.  [seed_nonce] is an arbitrary function of (label, j, k) — in
+    the code, keyed Blake2b of the documented key (C13_seeded_slots_documented, C19_nonce_key_layout). *)
+Theorem C09_seeded_recovery_exact : forall (K : Fld), FldOk K -> forall (M : Mod K), ModOk K M ->
+  forall (seed_nonce : nlabel -> option nat -> nat -> K) (rng : nat -> list K) (g : gens K M)
+  bits cap (v : N) (p : option N) (r : list K) (ch : pchals K),
+  let T := length (g_Gb g) in
+  let rounds := length (pc_es ch) in
+  1 <= bits -> 1 <= cap ->
+  length (g_G g) = bits * cap -> length (g_Hv g) = bits * cap ->
+  1 * bits = 2 ^ rounds ->
+  pc_y ch <> f0 K -> pc_z ch <> f0 K -> pc_e ch <> f0 K -> Forall (fun e => e <> f0 K) (pc_es ch) ->
+  length r = T ->
+  let nn := assign K seed_nonce rng true T rounds in
+  let pf := prove_core K M bits cap g [v] [p] [r] nn ch in
+  recover_mask K seed_nonce bits 1 T (mkVproof K (pp_d1 pf) (pp_r1 pf) (pp_s1 pf))
+               (mkChals K (pc_y ch) (pc_z ch) (pc_es ch) (pc_e ch)) = r.
+Proof. exact seeded_recovery_exact. Qed.
+Print Assumptions C09_seeded_recovery_exact.
